@@ -19,7 +19,8 @@ CFG = dict(
     assumptions=["join-all is only called from the main (non-managed) thread, as documented",
                  "at-exit callbacks are registered from the thread function, not from other at-exit callbacks"],
     min_counts={"any": {"join_all_called_before_all_finished": 30, "managed_thread_launched_by_thread": 30,
-                        "pthread_create_failed": 20, "several_at_exit_callbacks": 50}},
+                        "pthread_create_failed": 20, "several_at_exit_callbacks": 50,
+                        "library_reinit_with_managed_threads_outstanding": 20, "timed_join_all_gave_up": 20}},
 )
 
 META = dict(
